@@ -1,7 +1,7 @@
 (* DerivTotal.v — differentiation never fails because of an option setting (C15, C06). *)
 From mathcomp Require Import all_ssreflect all_algebra.
 From SsrMultinomials Require Import mpoly.
-From NP Require Import Base Poly Deriv Abs Clean Shape Align WfP Arith DerivP.
+From NP Require Import Base Poly Deriv Abs Clean Shape Align WfP Arith DerivP StackP.
 Set Implicit Arguments. Unset Strict Implicit. Unset Printing Implicit Defensive.
 Import GRing.Theory.
 Local Open Scope ring_scope.
@@ -105,4 +105,47 @@ Theorem derivative_total o p (vs : seq 'I_n) :
   wfb p -> all (fun v : 'I_n => nat_of_ord v \in names p) vs ->
   exists r, derivative o p [seq nat_of_ord v | v <- vs] = Ok r.
 Proof. by move=> wp; apply: derivative_names_total. Qed.
+
+(* stacking well-formed arrays of one shape never fails *)
+Theorem pstack0_total o ps sh :
+  (0 < size ps)%N -> all (@wfb R) ps -> all (fun p => shape p == sh) ps -> exists r, pstack0 o ps = Ok r.
+Proof.
+move=> pos wps shs; rewrite pstack0E //; set p0 := head _ ps; cbv zeta.
+have p0in : p0 \in ps by rewrite /p0; case: (ps) pos => //= a l _; rewrite mem_head.
+have sp0 : shape p0 = sh by apply/eqP; move/allP: shs; apply.
+have -> : all (fun p => shape p == shape p0) ps by rewrite sp0.
+rewrite [~~ true]/= align_exponsE.
+set F := fun p => align_rows (grows ps) (anames ps p).
+have [w0 n0 r0 s0 e0] := align_expons_elem n wps p0in.
+have -> : head p0 [seq F p | p <- ps] = F p0 by rewrite /p0; case: (ps) pos.
+rewrite -/(F p0) in w0 n0 r0; rewrite n0 r0.
+have [srs rpos urs wid [_ npos un]] := wfbP w0.
+rewrite /clean /=; apply: from_attributes_total => //.
+- by rewrite size_map size_iota.
+- by move: wid; rewrite n0 r0.
+- by move: un; rewrite n0.
+Qed.
+
+(* gradient never fails, whatever the options *)
+Theorem gradient_total o p (vs : seq 'I_n) :
+  wfb p -> names p = [seq nat_of_ord v | v <- vs] -> exists r, gradient o p = Ok r.
+Proof.
+move=> wp np; rewrite /gradient.
+have [_ _ _ _ [_ npos _]] := wfbP wp.
+have vin (v : 'I_n) : v \in vs -> nat_of_ord v \in names p by move=> vi; rewrite np; apply: map_f.
+have [ds [eds szd alld]] : exists ds, [/\ rseq [seq derivative o p [:: v] | v <- names p] = Ok ds, size ds = size (names p)
+                                          & all (fun d => wfb d && (shape d == shape p)) ds].
+  rewrite np; elim: (vs) vin => [|v l IH] vin /=; first by exists [::].
+  have vv : nat_of_ord v \in names p by apply: vin; rewrite mem_head.
+  have [d ed] := @derivative_total o p [:: v] wp (introT andP (conj vv isT)).
+  have [wd sd _] := @derivative_spec n R o p [:: v] d wp (introT andP (conj vv isT)) ed.
+  have vin' (w : 'I_n) : w \in l -> nat_of_ord w \in names p by move=> wi; apply: vin; rewrite inE wi orbT.
+  have [ds [eds szd alld]] := IH vin'.
+  exists (d :: ds); rewrite /= in ed *; rewrite ed eds /=; split=> //; first by rewrite szd.
+  by rewrite wd sd eqxx.
+rewrite eds /=; apply: (@pstack0_total o ds (shape p)).
+- by rewrite szd.
+- by apply/allP => d /(allP alld) /andP[].
+- by apply/allP => d /(allP alld) /andP[].
+Qed.
 End DerivTotal.
